@@ -275,7 +275,29 @@ mod h {
         let y: u8 = kani::any();
         kani::assume(x <= 9 && y <= 9);
         let two: bool = kani::any();
+        let named: bool = kani::any();
         let base = WasmMsg::ClearAdmin { contract_addr: String::new() };
+        if named {
+            // payload parameters called `id` and `reply_on`: still the caller's values, on every receiver
+            let out: StdResult<SubMsg<Empty>> = if two {
+                T::nm(base, x, y)
+            } else {
+                T::nm(SubMsg::<Empty>::new(base), x, y)
+            };
+            match &out {
+                Ok(o) => {
+                    let b = o.payload.as_slice();
+                    assert!(o.id == tsv::NM_REPLY_ID && ro_eq(&o.reply_on, &ReplyOn::Error));
+                    assert!(b.len() == 5 && b[0] == b'[' && b[1] == b'0' + x && b[2] == b',' && b[3] == b'0' + y && b[4] == b']',
+                        "payload arguments are encoded by VALUE whatever the parameters are called");
+                }
+                Err(_) => assert!(false),
+            }
+            kani::cover!(two, "named parameters, wasm receiver");
+            kani::cover!(!two, "named parameters, sub-message receiver");
+            core::mem::forget(out);
+            return;
+        }
         let out: StdResult<SubMsg<Empty>> = if two { T::two(base, x, y) } else { T::one(base, x) };
         match &out {
             Ok(o) => {
@@ -291,8 +313,8 @@ mod h {
                     assert!(b.len() == 1 && b[0] == b'0' + x, "one typed value is encoded as itself");
                 }
                 assert!(tsv::ONE_REPLY_ID != tsv::TWO_REPLY_ID);
-                kani::cover!(two, "two typed values");
-                kani::cover!(!two, "one typed value");
+                kani::cover!(two && !named, "two typed values");
+                kani::cover!(!two && !named, "one typed value");
             }
             Err(_) => assert!(false, "encoding small integers cannot fail"),
         }
